@@ -13,7 +13,7 @@ from . import world as W
 
 IN_BAD_TYPES = ["SELL", "FEE", "LOST", "MOVE", "FOO"]
 OUT_BAD_TYPES = ["BUY", "INTEREST", "AIRDROP", "MINING", "WAGES", "INCOME", "HARDFORK", "MOVE", "FOO"]
-TEXTS = ["abc", "1,5", {"t": "float_text", "v": "1.5"}, "(2.5)", "- 3.0", "2.0-"]
+TEXTS = ["abc", "1,5", {"t": "float_text", "v": "1.5"}, "(2.5)", "- 3.0", "2.0-", "#N/A", "#DIV/0!", {"t": "date", "v": "2020-01-01"}]  # boolean-typed cells stay out: RP2 reads TRUE as 1, and the documentation does not call that invalid (borderline, section 4.1)
 
 
 def _sheets_read(world, opts):
